@@ -23,9 +23,24 @@ pub enum Case {
 
 fn config_of(msg: &RMsg, twist: u8) -> (MessageConfig, bool) {
     let mut ext = msg.ext.as_ref().map(|e| ExtendedHeaderConfig { message_type: message_type_of(e.msin), app_id: e.apid.clone(), context_id: e.ctid.clone() });
-    let payload = payload_to_crate(msg);
+    let mut payload = payload_to_crate(msg);
     let mut representable = true;
     match twist {
+        3 => {
+            // variable-info flag set but name / unit left out: "any configuration" includes it; the writer emits
+            // empty names, so the message is not the value that parses back, but all lengths must still agree
+            if let PayloadContent::Verbose(args) = &mut payload {
+                for (i, a) in args.iter_mut().enumerate() {
+                    if a.type_info.has_variable_info {
+                        if i % 2 == 0 {
+                            a.name = None;
+                        }
+                        a.unit = None;
+                        representable = false;
+                    }
+                }
+            }
+        }
         1 if ext.is_some() && !matches!(payload, PayloadContent::NonVerbose(..)) => {
             ext = None; // verbose / control / network payload without extended header
             representable = false;
@@ -92,11 +107,16 @@ fn check_config(msg: &RMsg, ts: (u32, u32), twist: u8) -> CheckResult {
     let conf2 = conf.clone();
     let m = guard(move || Message::new(conf2, storage)).map_err(|p| Violation::from_panic("Message::new", &p))?;
     let want_pl = refcodec::payload_len(msg);
-    if m.header.payload_length as usize != want_pl {
+    if twist != 3 && m.header.payload_length as usize != want_pl {
         return Err(viol!(format!("new:{}:payload-length", kind), "Message::new recorded payload_length {} but the serialised payload has {} bytes", m.header.payload_length, want_pl));
     }
     let bytes = guard(|| m.as_bytes()).map_err(|p| Violation::from_panic("Message::as_bytes", &p))?;
     let sh = if m.storage_header.is_some() { 16 } else { 0 };
+    // the recorded payload length is the number of payload bytes the writer actually emits (whatever the configuration)
+    let emitted_pl = bytes.len() as i64 - sh as i64 - headers_len(from_crate(&m).msg.htyp) as i64;
+    if m.header.payload_length as i64 != emitted_pl {
+        return Err(viol!(format!("new:{}:payload-length-vs-emitted", kind), "Message::new recorded payload_length {} but as_bytes emits {} payload bytes (twist {})", m.header.payload_length, emitted_pl, twist));
+    }
     if m.byte_len() as usize != bytes.len() - sh {
         return Err(viol!(format!("new:{}:byte-len", kind), "byte_len() = {} but the serialisation without storage header has {} bytes", m.byte_len(), bytes.len() - sh));
     }
@@ -184,7 +204,7 @@ pub fn check(c: &Case) -> CheckResult {
 
 pub fn strategy() -> impl Strategy<Value = Case> {
     prop_oneof![
-        12 => (g::message(g::MsgParams::default()), any::<(u32, u32)>(), prop_oneof![8 => Just(0u8), 1 => Just(1u8), 1 => Just(2u8)])
+        12 => (g::message(g::MsgParams::default()), any::<(u32, u32)>(), prop_oneof![8 => Just(0u8), 1 => Just(1u8), 1 => Just(2u8), 1 => Just(3u8)])
             .prop_map(|(msg, ts, twist)| Case::Config { msg, ts, twist }),
         1 => (prop::sample::select(vec![RKind::Bool, RKind::Float(32), RKind::Float(64), RKind::Uint(32), RKind::Str]), g::kind())
             .prop_flat_map(|(kind, vk)| g::value_for(vk, 20).prop_map(move |val| Case::Valid { kind, val })),
